@@ -272,6 +272,9 @@ def classify_off(case, res):
                       'fresh object constructed with them (miter limit %g, arc tolerance %g, preserve_collinear %d, reverse_solution %d)'
                       % (case.get('ml', 0), case.get('at', 0), case.get('pc', 0), case.get('rs', 0))))
     bad = [k for k in names if flags.get(k, '1') != '1']
+    for k in [k for k in bad if k in ('so', 'so2')]:      # the option setters: never a matter of callbacks or single points
+        found.append(names[k])
+    bad = [k for k in bad if k not in ('so', 'so2')]
     if bad:
         has_point = any(len(strip_dups(p, et in (0, 1))) == 1 for (jt, et, paths) in gs for p in paths)
         round_point = any(jt == 2 and len(strip_dups(p, et in (0, 1))) == 1 for (jt, et, paths) in gs for p in paths)
